@@ -724,3 +724,90 @@ Proof.
   apply stale_run; try assumption.
   exact (commit_makes_stale dbg st a c id sc st1 Hinv Hac Esc Hclean Hstep).
 Qed.
+
+(** * The known class is a genuine defect of the modelled code: witness *)
+
+(** A (client 0): new, cp, commit, cp, commit, cp (staged v3 of lineage 0);
+    B (client 1): purge, new, cp, commit, cp, commit (lineage 1 at v2);
+    A: commit - succeeds and replaces B's two versions by A's three. *)
+Definition wit_id : bytes := b "o".
+Definition wit_run : list event :=
+  [ (0, New wit_id 0); (0, Stage wit_id (b "a.txt", Some 1)); (0, Commit wit_id);
+    (0, Stage wit_id (b "b.txt", Some 2)); (0, Commit wit_id);
+    (0, Stage wit_id (b "c.txt", Some 3));
+    (1, Purge wit_id); (1, New wit_id 0); (1, Stage wit_id (b "d.txt", Some 4)); (1, Commit wit_id);
+    (1, Stage wit_id (b "e.txt", Some 5)); (1, Commit wit_id) ].
+
+Lemma recreated_lineage_refuted :
+  exists es c id,
+    run_clean true mc_init es = true /\
+    c14_recreated_lineage (run true mc_init es) c id = true /\
+    snd (step true (run true mc_init es) c (Commit id)) = Ok tt /\
+    exists o o1, mget (run true mc_init es) id = Some o /\
+      mget (fst (step true (run true mc_init es) c (Commit id))) id = Some o1 /\
+      o_lineage o1 = o_lineage o /\ ~ extends (o_versions o) (o_versions o1).
+Proof.
+  exists wit_run, 0, wit_id.
+  split; [vm_compute; reflexivity|]. split; [vm_compute; reflexivity|]. split; [vm_compute; reflexivity|].
+  eexists. eexists. split; [vm_compute; reflexivity|]. split; [vm_compute; reflexivity|].
+  split; [reflexivity|]. intros [tl H]. vm_compute in H. discriminate H.
+Qed.
+
+(** outside the class the same schedule is refused: with the re-created object still at v1
+    A's staged v3 does not fit *)
+Lemma recreated_lineage_boundary :
+  let es := firstn 10 wit_run in
+  c14_recreated_lineage (run true mc_init es) 0 wit_id = false /\
+  step true (run true mc_init es) 0 (Commit wit_id) = (run true mc_init es, Err).
+Proof. split; vm_compute; reflexivity. Qed.
+
+(** * Non-vacuity *)
+
+(** two clients clone v1, both stage a change, both commit: in either order exactly the first wins *)
+Definition race_prefix : list event :=
+  [ (0, New wit_id 0); (0, Stage wit_id (b "a.txt", Some 1)); (0, Commit wit_id);
+    (0, Stage wit_id (b "x.txt", Some 2)); (1, Stage wit_id (b "y.txt", Some 3)) ].
+
+Lemma race_exactly_one_wins :
+  let st := run true mc_init race_prefix in
+  run_clean true mc_init (race_prefix ++ [(0, Commit wit_id); (1, Commit wit_id)]) = true /\
+  run_clean true mc_init (race_prefix ++ [(1, Commit wit_id); (0, Commit wit_id)]) = true /\
+  run_results true st [(0, Commit wit_id); (1, Commit wit_id)] = [Ok tt; Err] /\
+  run_results true st [(1, Commit wit_id); (0, Commit wit_id)] = [Ok tt; Err] /\
+  (exists o, mget (run true st [(0, Commit wit_id); (1, Commit wit_id)]) wit_id = Some o /\
+             vn_number (o_head o) = 2 /\ List.length (o_versions o) = 2%nat) /\
+  (exists s, sget (run true st [(0, Commit wit_id); (1, Commit wit_id)]) 1 wit_id = Some s /\
+             s_state s = [(b "y.txt", 3); (b "a.txt", 1)]).
+Proof.
+  repeat split; try (vm_compute; reflexivity); eexists; repeat split; vm_compute; reflexivity.
+Qed.
+
+(** an object created with `-z 2` reaches v9 and then refuses to stage v10; nothing changes *)
+Fixpoint n_versions (k : nat) : list event :=
+  match k with
+  | O => []
+  | S k' => n_versions k' ++ [(0, Stage wit_id (b "f.txt", Some (N.of_nat k))); (0, Commit wit_id)]
+  end.
+Definition width2_run : list event := (0, New wit_id 2) :: n_versions 9.
+
+Lemma width2_refuses_v10 :
+  let st := run true mc_init width2_run in
+  run_clean true mc_init width2_run = true /\
+  (exists o, mget st wit_id = Some o /\ o_head o = mkV 9 2 /\ List.length (o_versions o) = 9%nat) /\
+  step true st 1 (Stage wit_id (b "g.txt", Some 77)) = (st, Err) /\
+  step false st 1 (Stage wit_id (b "g.txt", Some 77)) = (st, Err).
+Proof.
+  repeat split; try (vm_compute; reflexivity). eexists. repeat split; vm_compute; reflexivity.
+Qed.
+
+(** the hypotheses of the commit theorems are met by a concrete state *)
+Lemma commit_nonvacuous :
+  let st := run true mc_init race_prefix in
+  mc_inv st /\ (exists s, sget st 1 wit_id = Some s /\ vn_number (s_head s) <> 1) /\
+  c14_recreated_lineage st 1 wit_id = false /\
+  snd (step true st 1 (Commit wit_id)) = Ok tt.
+Proof.
+  split; [apply reachable_inv; vm_compute; reflexivity|].
+  split; [eexists; split; [vm_compute; reflexivity|vm_compute; discriminate]|].
+  split; vm_compute; reflexivity.
+Qed.
